@@ -674,10 +674,20 @@ func d1Lemmas(p *core.Program, r *core.Report) {
 							continue
 						}
 						for _, r3 := range *ld.Referrers() {
-							if mu, ok := r3.(*ssa.MapUpdate); !ok || mu.Key != ssa.Value(ld) {
-								if _, dbg := r3.(*ssa.DebugRef); !dbg {
+							// used as a key only (an insertion, or the look-up of that key's own entry
+							// before it is replaced): entries of different keys do not influence each other
+							switch u3 := r3.(type) {
+							case *ssa.MapUpdate:
+								if u3.Key != ssa.Value(ld) {
 									okAll = false
 								}
+							case *ssa.Lookup:
+								if u3.Index != ssa.Value(ld) {
+									okAll = false
+								}
+							case *ssa.DebugRef:
+							default:
+								okAll = false
 							}
 						}
 					}
@@ -696,7 +706,7 @@ func d1Lemmas(p *core.Program, r *core.Report) {
 				}))
 			}
 		}
-		r.Add("D1-lemma", "RelevantTagNames: its map-ordered result only feeds a set", p.Pos(fn.Pos()), okAll && n == 1, fmt.Sprintf("%s; %d call sites in the module", desc, n))
+		r.Add("D1-lemma", "RelevantTagNames: its map-ordered result is only used as map key", p.Pos(fn.Pos()), okAll && n == 1, fmt.Sprintf("%s; %d call sites in the module", desc, n))
 	}
 }
 
